@@ -28,6 +28,7 @@ import (
 	stakingtypes "cosmossdk.io/x/staking/types"
 	sdk "github.com/cosmos/cosmos-sdk/types"
 	authtypes "github.com/cosmos/cosmos-sdk/x/auth/types"
+	banktypes "cosmossdk.io/x/bank/types"
 	sckeeper "github.com/sunriselayer/sunrise/x/shareclass/keeper"
 	sctypes "github.com/sunriselayer/sunrise/x/shareclass/types"
 
@@ -544,7 +545,101 @@ func (r *shareRun) amount() sdkmath.Int {
 	}
 }
 
+// shareDirectedScenario (oracle only, own chain, nothing for the model): (1) share tokens of a GENESIS validator (never
+// registered through the share-class CreateValidator handler) cannot be sent by their holder; (2) an unbonding whose recipient the
+// bank refuses to credit (fee collector) sits in the same end-block sweeps as payable ones, over two sweeps: every payable
+// unbonding is paid exactly once, in full, and the unpayable one keeps its bond tokens on the module account.
+func shareDirectedScenario(e *Env) {
+	c, err := newShareChain()
+	if err != nil {
+		e.Note("share directed scenario: setup %v", err)
+		return
+	}
+	val, _ := c.App.StakingKeeper.ValidatorAddressCodec().BytesToString(c.Vals[0].Oper)
+	acc := func(i int) sdk.AccAddress { return c.Accs[i].Addr }
+	for i := 1; i <= 4; i++ {
+		if _, err, p := c.Exec(&sctypes.MsgNonVotingDelegate{Sender: acc(i).String(), ValidatorAddress: val, Amount: sdk.NewInt64Coin("urise", 100_000_000)}); err != nil || p != nil {
+			e.Note("share directed scenario: delegate %v %v", err, p)
+			return
+		}
+	}
+	e.Stat("scenario.share_directed")
+	shareDenom := sctypes.NonVotingShareTokenDenom(val)
+	// (1) transfers of the share denom
+	for _, amt := range []int64{1, 1000} {
+		to := acc(0)
+		pre := c.Bal(to, shareDenom)
+		_, err, p := c.Exec(&banktypes.MsgSend{FromAddress: acc(1).String(), ToAddress: to.String(), Amount: sdk.NewCoins(sdk.NewInt64Coin(shareDenom, amt))})
+		e.Oracle("no_panic", p == nil, "scenario=share_transfer MsgSend of %d %s: %v", amt, shareDenom, p)
+		e.Oracle("share_not_transferable", err != nil && c.Bal(to, shareDenom).Equal(pre), "scenario=share_transfer MsgSend of %d shares of a genesis validator: err=%v received=%s", amt, err, c.Bal(to, shareDenom).Sub(pre))
+	}
+	{
+		to := acc(0)
+		pre := c.Bal(to, shareDenom)
+		in := banktypes.Input{Address: acc(2).String(), Coins: sdk.NewCoins(sdk.NewInt64Coin(shareDenom, 5))}
+		out := banktypes.Output{Address: to.String(), Coins: sdk.NewCoins(sdk.NewInt64Coin(shareDenom, 5))}
+		_, err, p := c.Exec(&banktypes.MsgMultiSend{Inputs: []banktypes.Input{in}, Outputs: []banktypes.Output{out}})
+		e.Oracle("share_not_transferable", p == nil && err != nil && c.Bal(to, shareDenom).Equal(pre), "scenario=share_transfer MsgMultiSend: err=%v panic=%v", err, p)
+	}
+	if _, err := c.NextBlock(5 * time.Second); err != nil {
+		e.Oracle("no_halt", false, "scenario=share_directed block: %.200s", err.Error())
+		return
+	}
+	// (2) unpayable + payable unbondings in the same sweeps
+	fc := authtypes.NewModuleAddress(authtypes.FeeCollectorName).String()
+	type ub struct {
+		who  int
+		amt  int64
+		rcpt string
+	}
+	first := []ub{{1, 40_000_000, fc}, {2, 10_000_000, ""}}
+	second := []ub{{3, 10_000_000, ""}, {4, 50_000_000, ""}}
+	before := map[int]sdkmath.Int{}
+	for i := 1; i <= 4; i++ {
+		before[i] = c.Bal(acc(i), "urise")
+	}
+	accepted := map[int]bool{}
+	for bi, batch := range [][]ub{first, second} {
+		for _, u := range batch {
+			_, err, p := c.Exec(&sctypes.MsgNonVotingUndelegate{Sender: acc(u.who).String(), ValidatorAddress: val, Amount: sdk.NewInt64Coin("urise", u.amt), Recipient: u.rcpt})
+			e.Oracle("no_panic", p == nil, "scenario=share_directed undelegate a%d: %v", u.who, p)
+			accepted[u.who] = err == nil && p == nil
+		}
+		// rewards claimed by the undelegation are part of the balance: take the reference after the messages
+		for _, u := range batch {
+			before[u.who] = c.Bal(acc(u.who), "urise")
+		}
+		if _, err := c.NextBlock(3 * time.Second); err != nil {
+			e.Oracle("no_halt", false, "scenario=share_directed block %d: %.200s", bi, err.Error())
+			return
+		}
+	}
+	if !accepted[1] {
+		e.Stat("scenario.share_directed.blocked_recipient_refused_at_submission")
+	}
+	// first sweep: the first batch has completed, the second has not; second sweep: everything has
+	for k, dt := range []time.Duration{shareUnbond - 4*time.Second, 5 * time.Second, 5 * time.Second} {
+		if _, err := c.NextBlock(dt); err != nil {
+			e.Oracle("no_halt", false, "scenario=share_directed sweep %d: %.200s", k, err.Error())
+			return
+		}
+	}
+	for _, u := range append(first[1:], second...) {
+		if !accepted[u.who] {
+			continue
+		}
+		got := c.Bal(acc(u.who), "urise").Sub(before[u.who])
+		e.Oracle("undelegate_paid_once", got.Equal(sdkmath.NewInt(u.amt)), "scenario=share_directed a%d received %s of %d after both sweeps (an unpayable unbonding shares the sweeps)", u.who, got, u.amt)
+	}
+	if accepted[1] {
+		mod := authtypes.NewModuleAddress(sctypes.ModuleName)
+		held := c.Bal(mod, "uvrise").Add(c.Bal(mod, "urise"))
+		e.Oracle("unpaid_kept", held.GTE(sdkmath.NewInt(40_000_000)), "scenario=share_directed the module account holds %s for the unpayable unbonding of 40000000", held)
+	}
+}
+
 func suiteShare(e *Env) {
+	shareDirectedScenario(e)
 	// scripted histories first: the two witnesses of DESIGN §1.1 (S10: claim twice; S9: block inside the completion second)
 	if r := e.newShareRun("script=claim-twice"); r != nil {
 		ok := r.delegate(3, 0, sdkmath.NewInt(50_000_000), "urise") == "ok"
